@@ -65,12 +65,14 @@ Verdict(r) ==
          LET tw == WordBE(r.t)
              tm == TimeOfTicks(tw) IN
          LET v ==
-         First(<< <<"v1-layout", r.u = V1(tw, r.clock, r.node)>>,
+         \* a 6-byte node: the whole layout; any other length (placement / truncation of the node is not specified):
+         \* version, variant, timestamp and clock sequence are still the ones asked for
+         First(<< <<"v1-layout", IF Len(r.node) = 6 THEN r.u = V1(tw, r.clock, r.node) ELSE V1Fields(r.u, tw, r.clock)>>,
                   <<"v1-version", Len(r.u) = 16 /\ Version(r.u) = 1 /\ r.ver = 1>>,
                   <<"v1-variant", Len(r.u) = 16 /\ IsRfcVariant(r.u) /\ r.varietf>>,
                   <<"v1-timestamp", WordBE(r.ts) = tw>>,
                   <<"v1-time", WordBE(r.tsec) = tm.sec /\ r.tns = tm.ns>> >>)
-         IN IF v.ok /\ (r.clk # r.clock \/ r.nd # r.node)
+         IN IF v.ok /\ (r.clk # r.clock % 16384 \/ (Len(r.node) = 6 /\ r.nd # r.node))
             THEN [v EXCEPT !.drift = "Clock() / Node() do not return the clock sequence / node the UUID was built with"] ELSE v
     [] r.k = "fromtime" ->
          LET sec == WordBE(r.sec)
